@@ -34,6 +34,15 @@ def workloads(rng, tier):
     # right after a record's length prefix (-4) and inside the prefix (-2)
     ws.append(dict(kind='bam', recs=[5, 3, 4], level=-1, wc=1, split=[10, 60, -4]))
     ws.append(dict(kind='bam', recs=[5, 3, 4], level=0, wc=1, split=[-2, -20]))
+    # a FULL first block (0xff00 bytes) followed by a block of more than 256 bytes: a BSIZE
+    # substitution that makes member 0 span member 1 as well joins more than MaxBlockSize bytes
+    # and must be rejected (io.ErrShortBuffer).  Candidates: the second block's length is varied
+    # so that the joined size differs from BSIZE in one byte; run() keeps those with a target.
+    for L, per in ((300, 16), (400, 8), (520, 32), (700, 5)):
+        ws.append(dict(kind='bgzf', blocks=[[65280, 11, 251], [L, 12, per]], level=-1, wc=1, big=True))
+    ws.append(dict(kind='bgzf', blocks=[[65280, 13, 251], [256, 14, 16], [300, 15, 16]], level=0, wc=1, big=True))   # level 0: a joined size that still fits 16 bits cannot exceed the buffer
+    for L in (300, 350, 410, 480):
+        ws.append(dict(kind='bam', recs=[30000, 30000], level=-1, wc=1, split=[65280, 65280 + L], big=True))
     if tier != 'quick':
         for _ in range(6):
             ws.append(dict(kind='bgzf', blocks=[pat(rng.randrange(50), rng.randrange(0, 300)) for _ in range(rng.randrange(1, 6))],
@@ -189,14 +198,19 @@ def run(res, rng, tier):
             res.corr_bad.append(dict(case=w, obs=lay))
             continue
         n = lay['len']
-        if n > maxlen:
+        if n > maxlen and not w.get('big'):
             continue
-        muts = mutations(rng, tier, w, lay, n, exhaustive_framing=(wi == ex or tier != 'quick'), bsize_all=(tier != 'quick' or wi % 3 == 0))
+        if w.get('big'):
+            # only the computed merge targets, the BSIZE bytes of member 0 around them, and a few cuts
+            muts = merge_targets(lay) + [[0, k] for k in (0, 18, lay['bounds'][1], lay['bounds'][1] + 18, n - 28, n - 1)]
+            res.count('%s/full-block-merge-targets' % w['kind'], sum(1 for m in merge_targets(lay) if m[1] < lay['bounds'][1]))
+        else:
+            muts = mutations(rng, tier, w, lay, n, exhaustive_framing=(wi == ex or tier != 'quick'), bsize_all=(tier != 'quick' or wi % 3 == 0))
         res.count('%s/bsize-merge-targets' % w['kind'], len(merge_targets(lay)))
         for rd in (1, 2):
             step = 1500
             for i in range(0, len(muts), step):
-                full = (w['kind'] == 'bgzf' and w['level'] == 0 and rd == 1)
+                full = (w['kind'] == 'bgzf' and w['level'] == 0 and rd == 1 and not w.get('big'))
                 cases.append((wi, dict(w, rd=rd, muts=muts[i:i + step], full=full, reseek=(rd == 1))))
     obs = core.run_harness('c10', [c for _, c in cases], jobs=8, case_timeout='120s')
     res.notes.append('harness %.1fs' % (time.time() - t0))
